@@ -25,7 +25,6 @@ def pyReprBody (ds : List Char) (e : Int) : List Char :=
 def pyRepr (neg : Bool) (ds : List Char) (e : Int) : List Char :=
   if neg then '-' :: pyReprBody ds e else pyReprBody ds e
 
-/-- shortest digits: non-empty, digits, no trailing zero -/
 /-- where the pinned helper `string_value` (Python `repr` post-processed) differs from the F&O canonical form, on the number
 of shortest digits of the double and its decimal exponent `e` (value = d.ddd × 10^e) — the trigger of the former finding F10b;
 since fix-c10-7 the callers use `atomic_string_value` (`EPV.C10.double_string`) -/
@@ -33,10 +32,11 @@ def pinnedDeviationRegion (ndigits : Nat) (e : Int) : Bool :=
   (e == -6 || e == -5) || (decide (6 ≤ e) && decide (e < 16)) || (decide (16 ≤ e) && ndigits == 1) ||
   (decide (e < -6) && (ndigits == 1 || decide (-10 < e)))
 
+/-- shortest digits: non-empty, digits, no trailing zero -/
 def WFDigits (ds : List Char) : Prop :=
   ds ≠ [] ∧ (∀ c ∈ ds, Lex.isDigit c = true) ∧ ds.getLast? ≠ some '0'
 
-/-- the `.fin` branch of `Lex.dblString` as a function of the repr string -/
+/-- the float branch of the pinned helper (`Lex.pinnedFloatStr`) as a function of the repr string -/
 def finStr (r : List Char) : List Char :=
   let v := if r.contains '.' && !r.contains 'e' then Lex.rstrip '.' (Lex.rstrip '0' r) else r
   let v := if v.contains '+' then v.filter (· != '+') else v
